@@ -38,7 +38,7 @@ pub fn gen_config(profile: &str, rng: &mut Rng, tier: Tier) -> Config {
 				nc.async_default = r.chance(1, 2);
 				nc.deferred = r.chance(1, 3);
 			},
-			"crash" | "forward" | "payments" | "receive" => {
+			"crash" | "forward" | "payments" | "receive" | "onchain" => {
 				nc.async_default = r.chance(1, 4);
 				nc.deferred = r.chance(1, 5);
 			},
@@ -105,7 +105,7 @@ pub fn gen_config(profile: &str, rng: &mut Rng, tier: Tier) -> Config {
 			w(&mut weights, "AsyncOn", 2);
 			w(&mut weights, "PersistMgr", 6);
 		},
-		"forward" | "payments" | "receive" | "crash" => {
+		"forward" | "payments" | "receive" | "crash" | "onchain" => {
 			w(&mut weights, "CompleteMon", *r.pick(&[10, 25, 50]));
 			w(&mut weights, "AsyncOn", 1);
 			w(&mut weights, "PersistMgr", *r.pick(&[3, 8, 20]));
@@ -386,6 +386,10 @@ pub fn next_action(wd: &World, rng: &mut Rng) -> Option<Action> {
 			if kind == "CloseCoop" {
 				Action::CloseCoop { n: i, chan: c }
 			} else {
+				// T6: no user force close while a monitor write of that channel is in flight
+				if completions.iter().any(|(cn, cc)| *cn == i && *cc == c) {
+					return None;
+				}
 				Action::ForceClose { n: i, chan: c }
 			}
 		},
